@@ -349,12 +349,11 @@ def dump_one(f: TextIO, data: IOData):
     # BASIS
     f.write("$BASIS\n")
     iatom_last = 0
-    for shell in data.obasis.shells:
+    # The reader counts the "$$" separators: write the shells sorted by center, one "$$" per atom passed.
+    for shell in sorted(data.obasis.shells, key=(lambda s: s.icenter)):
         if shell.ncon != 1:
             raise RuntimeError("Generalized contractions not supported. Call prepare_dump first.")
-        iatom_new = shell.icenter
-        if iatom_new != iatom_last:
-            f.write("$$\n")
+        f.write("$$\n" * (shell.icenter - iatom_last))
         angmom = shell.angmoms[0]
         kind = shell.kinds[0]
         iatom_last = shell.icenter
@@ -401,6 +400,12 @@ def dump_one(f: TextIO, data: IOData):
 # Defining help dumping functions
 def _dump_helper_coeffs(f, data, spin=None):
     permutation, signs = convert_conventions(data.obasis, CONVENTIONS)
+    # The rows must follow the order in which the shells were written (sorted by center).
+    shells = data.obasis.shells
+    offsets = np.cumsum([0] + [shell.nbasis for shell in shells])
+    order = sorted(range(len(shells)), key=(lambda i: shells[i].icenter))
+    rows = np.array([j for i in order for j in range(offsets[i], offsets[i + 1])], dtype=int)
+    permutation, signs = permutation[rows], signs[rows]
     if spin == "a":
         norb = data.mo.norba
         coeff = data.mo.coeffsa[permutation] * signs.reshape(-1, 1)
